@@ -64,7 +64,7 @@ PROPS["C12"] = {
     "undecided": ["serializer round trip for all values (bounded exhaustive only)", "ScopeInfo.__getstate__/__setstate__ (bounded only)"],
 }
 PROPS["C16"] = {
-    "sidecars": ["c16_bytes.py", "c16_decode.py"],
+    "sidecars": ["c16_bytes.py", "c16_decode.py", "c16_file.py"],
     "level": "other",
     "claim": "Proof level for the codec/newline selection logic: unicode_to_file_data writes the text with the file's newline convention in the declared "
              "(cookie) encoding, else UTF-8, and reports (never silently replaces) a codec that cannot represent the text; _decode_data uses the declared or "
@@ -87,7 +87,7 @@ PROPS["C15"] = {
     "undecided": ["name tables built by the scope visitors for every module (bounded only)", "holding-scope computation from line numbers"],
 }
 PROPS["C01"] = {
-    "sidecars": ["c01_collector.py", "c02_search.py"],
+    "sidecars": ["c01_collector.py", "c02_search.py", "c02_samename.py"],
     "level": "other",
     "claim": "Proof level for the text-edit kernel every rename goes through: ChangeCollector.get_changed returns the text with exactly the sorted, non-overlapping "
              "edit ranges replaced -- length, every kept gap, every replacement and the tail are pinned position by position (loop invariant over a ghost offset "
@@ -98,7 +98,7 @@ PROPS["C01"] = {
     "undecided": ["binding analysis (which tokens are occurrences) for all programs", "module/package renames", "behaviour for all inputs"],
 }
 PROPS["C02"] = {
-    "sidecars": ["c02_search.py"],
+    "sidecars": ["c02_search.py", "c02_samename.py"],
     "level": "other",
     "claim": "Proof level for the textual layer: _TextualFinder._normal_search yields exactly the positions where the name occurs delimited by non-identifier "
              "characters, strictly increasing, none missing (gap formulation of completeness; the skip `current = found + len(name)` is justified by an exported "
